@@ -274,6 +274,8 @@ pub struct H
     pub slots: Vec<Entity>,
     pub insts: Vec<Option<SystemCommand>>,
     pub tokens: Vec<Option<RevokeToken>>,
+    /// the signal of every ref-counted pre-spawned system command (`InstDef::rc`)
+    pub inst_sigs: Vec<Option<AutoDespawnSignal>>,
     /// `On`/`Once` op for this instance already executed.
     pub created: Vec<bool>,
     /// harness-side run counter per instance: selects the script, so a system whose own state is lost cannot loop forever
@@ -302,7 +304,7 @@ impl H
     /// A table that can only resolve slots (used before the real one exists).
     pub(crate) fn for_resolve(prog: Arc<Program>, slots: Vec<Entity>) -> H
     {
-        H { prog, slots, insts: Vec::new(), tokens: Vec::new(), created: Vec::new(), runs: Vec::new(), total_runs: 0, sigs: Vec::new(), sig_ent: Vec::new(), known: Vec::new(),
+        H { prog, slots, insts: Vec::new(), tokens: Vec::new(), inst_sigs: Vec::new(), created: Vec::new(), runs: Vec::new(), total_runs: 0, sigs: Vec::new(), sig_ent: Vec::new(), known: Vec::new(),
             wr_keys: [HashSet::new(), HashSet::new()], ewr_members: [HashMap::new(), HashMap::new()], base_entities: 0, callee_seq: 0, callee_calls: [0; 3], sys: Vec::new(), sys_sigs: Vec::new(), bulk_dropped: Vec::new(), bulk_kept: Vec::new() }
     }
     fn resolve(&self, t: &Trig) -> RTrig
@@ -466,8 +468,21 @@ pub fn excl_actor<Ret: MkRet>(inst: u8) -> impl FnMut(&mut World, &mut SystemSta
         let _ = &canary;
         *n += 1;
         cap += 1;
-        let ((s, held), chg) = { let mut r = st.get_mut(world); (r.sample(), r.changed()) };
-        log(Ev::Body { inst, n: *n, cap, s, chg });
+        // An exclusive system reads its event through a nested system: every third instance through its own `SystemState`, the
+        // others through `World::syscall_once` / `World::syscall_once_with_validation` (which flush when they return, so the
+        // observation is logged from inside the nested system).
+        let held = if inst % 3 == 0
+        {
+            let ((s, held), chg) = { let mut r = st.get_mut(world); (r.sample(), r.changed()) };
+            log(Ev::Body { inst, n: *n, cap, s, chg });
+            held
+        }
+        else
+        {
+            let chg = st.get_mut(world).changed();
+            let sampler = |In((inst, n, cap, chg)): In<(u8, u32, u32, bool)>, mut r: Readers| { let (s, held) = r.sample(); log(Ev::Body { inst, n, cap, s, chg }); held };
+            if inst % 3 == 1 { world.syscall_once((inst, *n, cap, chg), sampler) } else { world.syscall_once_with_validation((inst, *n, cap, chg), sampler, |_| {}) }
+        };
         drop(held);
         let run = world.resource_mut::<H>().next_run(inst);
         let prog = world.resource::<H>().prog.clone();
@@ -558,11 +573,23 @@ pub(crate) fn interp_basic(op: &Op, u: u32, c: &mut Commands, h: &mut H) -> Opti
                 match p { P::X => c.send_system_event(sc, X(u, None)), P::Y => c.send_system_event(sc, Y(u, None)) }
             }
         }
-        Op::Broadcast(p) => match p { P::X => c.react().broadcast(X(u, None)), P::Y => c.react().broadcast(Y(u, None)) },
+        // (every third one goes through the `ReactCommands` of an `EntityCommands` -- of an unrelated, living entity)
+        Op::Broadcast(p) =>
+        {
+            match (u % 3 == 1).then(|| c.get_entity(h.slots[0])).flatten()
+            {
+                Some(mut ec) => match p { P::X => ec.react().broadcast(X(u, None)), P::Y => ec.react().broadcast(Y(u, None)) },
+                None => match p { P::X => c.react().broadcast(X(u, None)), P::Y => c.react().broadcast(Y(u, None)) },
+            }
+        }
         Op::EntityEvent(s, p) =>
         {
             let e = h.slots[*s as usize];
-            match p { P::X => c.react().entity_event(e, X(u, None)), P::Y => c.react().entity_event(e, Y(u, None)) }
+            match (u % 3 == 1).then(|| c.get_entity(h.slots[0])).flatten()
+            {
+                Some(mut ec) => match p { P::X => ec.react().entity_event(e, X(u, None)), P::Y => ec.react().entity_event(e, Y(u, None)) },
+                None => match p { P::X => c.react().entity_event(e, X(u, None)), P::Y => c.react().entity_event(e, Y(u, None)) },
+            }
         }
         Op::BroadcastSig(p, k) =>
         {
@@ -652,7 +679,13 @@ pub(crate) fn interp_basic(op: &Op, u: u32, c: &mut Commands, h: &mut H) -> Opti
             {
                 h.created[*inst as usize] = true;
                 let b = h.bundle(trigs);
-                let t = c.react().once(b, plain_actor::<()>(*inst));
+                let t = match h.prog.insts[*inst as usize].flavour
+                {
+                    Flavour::FallibleWarn => c.react().once(b, plain_actor::<WarnErr>(*inst)),
+                    Flavour::FallibleDrop => c.react().once(b, plain_actor::<DropErr>(*inst)),
+                    Flavour::Exclusive => c.react().once(b, excl_actor::<()>(*inst)),
+                    _ => c.react().once(b, plain_actor::<()>(*inst)),
+                };
                 let sc = SystemCommand::from(t.clone());
                 h.set_inst(*inst, sc);
                 h.tokens[*inst as usize] = Some(t);
@@ -925,6 +958,28 @@ pub fn exec_wop(world: &mut World, op: &WOp, u: u32)
         WOp::Poll => schedule_removal_and_despawn_reactors(world),
         WOp::Flush => world.flush(),
         WOp::KillInst(i) => { if let Some(sc) = world.resource::<H>().insts[*i as usize] { world.despawn(*sc); } }
+        WOp::RcScratch(variant, hold) =>
+        {
+            let sig = match variant % 4
+            {
+                0 => spawn_rc_system_command(world, || {}),
+                1 => spawn_rc_system_command_from(world, SystemCommandCallback::new(|| {})),
+                2 => spawn_rc_system(world, |In(_): In<u32>| {}),
+                _ => spawn_rc_system_from(world, CallbackSystem::<In<u32>, ()>::new(|In(_): In<u32>| {})),
+            };
+            let e = sig.entity();
+            let kept = hold.then(|| sig.clone());
+            drop(sig);
+            garbage_collect_entities(world);
+            world.flush();
+            let mid = world.get_entity(e).is_ok();
+            drop(kept);
+            garbage_collect_entities(world);
+            world.flush();
+            let after = world.get_entity(e).is_ok();
+            log(Ev::RcScratch { uid: u, mid, after });
+        }
+        WOp::DropInstSig(i) => { let sig = world.resource_mut::<H>().inst_sigs.get_mut(*i as usize).and_then(|s| s.take()); drop(sig); }
         WOp::SysEvent(i, p) =>
         {
             if let Some(sc) = world.resource::<H>().insts[*i as usize]
@@ -1427,6 +1482,7 @@ fn run_inner(prog: &Arc<Program>)
         slots: Vec::new(),
         insts: vec![None; ninst],
         tokens: vec![None; ninst],
+        inst_sigs: (0..ninst).map(|_| None).collect(),
         created: vec![false; ninst],
         runs: vec![0; ninst],
         total_runs: 0,
@@ -1452,6 +1508,31 @@ fn run_inner(prog: &Arc<Program>)
         if def.origin != Origin::Pre { continue; }
         // the three equivalent entry points take turns: `Commands::spawn_system_command`, `World::spawn_system_command`,
         // and `spawn_system_command_from(SystemCommandCallback::new(..))`
+        if def.rc
+        {
+            // ref-counted system commands: `spawn_rc_system_command` / `spawn_rc_system_command_from` take turns
+            let iu = i as u8;
+            let sig = match (i % 2, def.flavour)
+            {
+                (0, Flavour::Plain) => spawn_rc_system_command(world, plain_actor::<()>(iu)),
+                (0, Flavour::Exclusive) => spawn_rc_system_command(world, excl_actor::<()>(iu)),
+                (0, Flavour::FallibleDrop) => spawn_rc_system_command(world, plain_actor::<DropErr>(iu)),
+                (_, Flavour::Plain) => spawn_rc_system_command_from(world, SystemCommandCallback::new(plain_actor::<()>(iu))),
+                (_, Flavour::FallibleDrop) => spawn_rc_system_command_from(world, SystemCommandCallback::new(plain_actor::<DropErr>(iu))),
+                (_, Flavour::FallibleWarn) => spawn_rc_system_command_from(world, SystemCommandCallback::new(plain_actor::<WarnErr>(iu))),
+                (_, Flavour::Exclusive) => spawn_rc_system_command_from(world, SystemCommandCallback::new(excl_actor::<()>(iu))),
+                (_, Flavour::ExclusiveWarn) => spawn_rc_system_command_from(world, SystemCommandCallback::new(excl_actor::<WarnErr>(iu))),
+                (_, Flavour::InParamSet) => spawn_rc_system_command_from(world, SystemCommandCallback::new(ps_actor(iu))),
+                (_, Flavour::DeferredW) => spawn_rc_system_command_from(world, SystemCommandCallback::new(dw_actor(iu))),
+                (_, Flavour::CustomCb) => spawn_rc_system_command(world, plain_actor::<()>(iu)),
+            };
+            let sc = SystemCommand(sig.entity());
+            h.inst_sigs[i] = Some(sig);
+            h.insts[i] = Some(sc);
+            h.known.push(*sc);
+            log(Ev::InstEntity { inst: iu, e: sc.to_bits() });
+            continue;
+        }
         let sc = match (i % 3, def.flavour)
         {
             (1, Flavour::Plain) => world.spawn_system_command(plain_actor::<()>(i as u8)),
